@@ -82,10 +82,14 @@ def small_universe(v, tier):
     return res, out, scen, files.get("tableobs")
 
 
-def real_scale(seed, ncases, variants, maxworkers, prefix="real", kinds=None, badger=False, cli=False):
-    """(C) driver.  Returns (outcome, case file, {kind: (trace path, n)})."""
+def real_scale(seed, ncases, variants, maxworkers, prefix="real", kinds=None, badger=False, cli=False, huge=0):
+    """(C) driver.  Returns (outcome, case file, {kind: (trace path, n)}).
+    huge > 0: one more case, a table of more than `huge` full blocks (first, so that it runs beside the others)."""
     cases = os.path.join(vlib.sub("scn"), "%s.cases.ndjson" % prefix)
     with open(cases, "w") as f:
+        if huge:
+            f.write(json.dumps({"seed": seed, "idx": 0, "variants": 2, "maxworkers": maxworkers, "badger": False,
+                                "cli": False, "huge": huge}) + "\n")
         for i in range(ncases):
             f.write(json.dumps({"seed": seed, "idx": i, "variants": variants, "maxworkers": maxworkers,
                                 "badger": badger, "cli": cli and i % 3 == 0}) + "\n")
